@@ -39,6 +39,7 @@ import CaddyModel.C16.LexProps
 import CaddyModel.C16.HistProps
 import CaddyModel.C16.GlueProps
 import CaddyModel.C16.BindProps
+import CaddyModel.C16.ServerOptsProps
 
 namespace CaddyModel.C16
 
